@@ -147,7 +147,19 @@ func Identities(w *world.World, ids []string) ([]age.Identity, *[]string) {
 	mu := &sync.Mutex{}
 	var out []age.Identity
 	for i, id := range ids {
-		out = append(out, world.RecordingIdentity{Inner: w.Identity(id), Name: fmt.Sprintf("%d:%s", i+1, id), Log: log, Mu: mu})
+		rec := world.RecordingIdentity{Inner: w.Identity(id), Name: fmt.Sprintf("%d:%s", i+1, id), Log: log, Mu: mu}
+		// the caller's identities come in every Go shape: comparable values, and (in lists of three or more, or at the
+		// odd positions of lists of an even length) slices, funcs and structs that hold a slice
+		switch (i*2 + len(ids) + int(id[len(id)-1])) % 6 {
+		case 3:
+			out = append(out, world.Keyring{rec})
+		case 4:
+			out = append(out, world.IdentityFunc(rec.Unwrap))
+		case 5:
+			out = append(out, world.BoxedIdentity{Inner: rec})
+		default:
+			out = append(out, rec)
+		}
 	}
 	return out, log
 }
